@@ -12,7 +12,9 @@ NT_ATOMS = ["P", "OP1", "OP2", "O5'", "C5'", "C4'", "O4'", "C3'", "O3'", "C2'", 
 def make_table(rng, nmodels=None):
     """random well-formed atom table (list of records, file order)"""
     nmodels = nmodels or rng.choice([1, 1, 2, 3])
-    model_ids = sorted(rng.sample([1, 2, 3, 4, 5, 7], nmodels))
+    model_ids = rng.sample([1, 2, 3, 4, 5, 7], nmodels)  # file order; half of the tables list their models out of numeric order
+    if rng.random() < 0.5:
+        model_ids.sort()
     chains = rng.sample(["A", "B", "C"], rng.randint(1, 2))
     skeleton = []
     for ch in chains:
